@@ -21,14 +21,14 @@ def mc(run, tier):
     n = 4 if tier == "quick" else 5
     for cfg, want in (("WaitDep_U55.cfg", "ok"), ("WaitDep_U65.cfg", "ok"), ("WaitDep_Broken.cfg", "invariant")):
         text = open(tlc.SPEC + "/" + cfg).read().replace("N = 4", "N = %d" % n)
-        tmpcfg = "_tmp_%s_%s" % (tier, cfg)
+        import os
+        tmpcfg = "_tmp_%d_%s_%s" % (os.getpid(), tier, cfg)      # per process: checks run concurrently from this tree
         with open(tlc.SPEC + "/" + tmpcfg, "w") as f:
             f.write(text)
         try:
             res = tlc.run("WaitDep", tmpcfg, workers=16, coverage=(cfg == "WaitDep_U55.cfg" and tier == "quick"),
                           timeout=1500)
         finally:
-            import os
             os.remove(tlc.SPEC + "/" + tmpcfg)
         if res["status"] != want:
             raise MachineryError("WaitDep %s: expected %s, got %s\n%s" % (cfg, want, res["status"], res["output"][-2000:]))
@@ -152,6 +152,8 @@ def blockdep_pairs(run, res, tier, sd):
 
 def corpus_streams(run, n, sd):
     jobs = corpus.all_singles(sd, tier=run.tier) + corpus.draw(n, sd, dedicated_bias=0.3)
+    # graph shapes (corpus_shapes.py); emphasis: consumers with different strides in x and y right behind their producer
+    jobs += corpus.shape_jobs(sd, run.tier, extra=["astride"] * 5, thorough=15)
     rs = vela_run.compile_many(jobs)
     out = []
     for j, x in zip(jobs, rs):
